@@ -170,7 +170,8 @@ def handle (op : String) (args : List String) (impl : String) : String :=
     | _, _ => badReq "instant"
   | "tsleap", [kind, sS, extra, off] =>
     -- a chrono reading inside a leap second: `timestamp()` is the second it hangs on; whether that instant counts
-    -- as second S or S+1 "since the epoch" the property does not say: either answer holds, anything else fails (`judgeLeap`)
+    -- as second S or S+1 "since the epoch" the property does not say inside the range (either answer holds there), at the two
+    -- ends of the range it does (only S); anything else fails (`judgeLeap`)
     match mkInstant sS extra with
     | none => badReq "instant"
     | some t =>
